@@ -17,9 +17,17 @@ def check(ctx):
     core2.body_wrappers(ctx, "C04")
     core2.mgr_provided_mirrors(ctx, "C04")
     core2.sched_run_definitions(ctx, "C04", want_equiv=False)
+    from . import core7
+
+    core7.retired_stay(ctx, "C04")
+    core7.group_has_enclosing(ctx, "C04")
 
 
 MUTANTS = [
+    ("ungrouped-simultaneous-transactions-dropped", M, "        for transaction in all_simultaneous:\n            method = Method(", "        for transaction in set[TBody]().union(*final_simultaneous):\n            method = Method("),
+    ("group-without-enclosing-built", M, "                    if dep in transaction.simultaneous_list\n                ):\n                    continue\n", "                    if dep in transaction.simultaneous_list\n                ):\n                    pass\n"),
+    ("enclosing-test-any-dependency", M, "                    if dep in transaction.simultaneous_list\n", ""),
+    ("enclosing-test-polarity", M, "not group & frozenset(method_map.transactions_for(dep))", "group & frozenset(method_map.transactions_for(dep))"),
     ("method-run-all-callers", M, "m.d.comb += method.run.eq(granted.any())", "m.d.comb += method.run.eq(granted.all())"),
     ("method-run-ignores-enable", M, "transaction.run & Cat(call.enable for call in method_map.info_by_call[(transaction, method)]).any()", "transaction.run"),
     ("method-run-wrong-key", M, "Cat(call.enable for call in method_map.info_by_call[(transaction, method)]).any()\n                for transaction in transactions", "Cat(call.enable for call in method_map.info_by_call[(transactions[0], method)]).any()\n                for transaction in transactions"),
